@@ -6,7 +6,7 @@ from . import ctl
 CONFLICT_ANN = [
     {"redirect-from": "old.local"}, {"server-alias": "alias.local"}, {"balance-algorithm": "leastconn"},
     {"balance-algorithm": "first"}, {"timeout-server": "11s"}, {"timeout-server": "12s"}, {"auth-url": "http://10.0.0.9:8000/auth"},
-    {"auth-url": "http://10.0.0.8:8000/auth"}, {"auth-url": "svc://auth:8080/x"}, {"oauth": "oauth2_proxy"}, {"ssl-redirect": "true"},
+    {"auth-url": "http://10.0.0.8:8000/auth"}, {"auth-url": "svc://auth:8080/x"}, {"auth-url": "https://10.0.0.9:8000/auth"}, {"auth-url": "https://10.0.0.9:8000/other"}, {"oauth": "oauth2_proxy"}, {"ssl-redirect": "true"},
     {"app-root": "/a"}, {"app-root": "/b"}, {"cert-signer": "acme"}, {"auth-tls-secret": "ca"}, {"maxconn-server": "5"}, {"maxconn-server": "6"},
     {"affinity": "cookie"}, {"session-cookie-name": "X"}, {"hsts-max-age": "10"}, {"hsts-max-age": "20"}, {"ssl-passthrough": "true"},
     {"ssl-passthrough": "true", "ssl-passthrough-http-port": "8080"}, {"secure-backends": "true"}, {"backend-protocol": "h2"},
@@ -36,9 +36,11 @@ def conflict_histories(ctx, n):
             # the same ingress name in two namespaces, created at the same instant, declaring the same host and path
             ops += [U.op_svc("s1", ns="e"), U.op_svc("s2", ns="e"), U.op_eps("s1", "e1", ns="e"), U.op_eps("s2", "e2", ns="e")]
             t1, t2 = rng.sample(["t1", "t3", "t7", "t4", "t9"], 2)
-            a = U.op_ing(1, t1, dict(rng.choice(CONFLICT_ANN)), name="same", ns=rng.choice(["d", "e"]))
-            b = U.op_ing(1, t2, dict(rng.choice(CONFLICT_ANN)), name="same", ns="e" if a["name"].startswith("d/") else "d")
-            ops += [a, b]
+            # ... or names whose order disagrees with the order of their namespaces (the tie-break is namespace/name as one string)
+            na, nb = ("same", "same") if rng.random() < 0.5 else ("zz", "aa")
+            a = U.op_ing(1, t1, dict(rng.choice(CONFLICT_ANN)), name=na, ns="d")
+            b = U.op_ing(1, t2, dict(rng.choice(CONFLICT_ANN)), name=nb, ns="e")
+            ops += rng.choice([[a, b], [b, a]])
         h = dict(id="cf-%d" % i, opt=dict(shards=0, watchwithoutclass=True), steps=[dict(ops=ops, fullfirst=False)])
         # a second, incremental step that reaches a conflict state through a permuted batch
         ops2 = []
